@@ -152,6 +152,11 @@ type dbState struct {
 	dones    map[string]func(statedb.WriteTxn)
 	open     map[int]bool // write transactions not yet committed/aborted
 	held     map[int]int  // table -> open transaction holding it
+
+	// concurrent: driven by drv_sched (several goroutines, no synctest bubble); blocking on a
+	// table lock is then expected and virtual-time helpers are off
+	concurrent bool
+	mu         sync.Mutex
 }
 
 func (st *dbState) release(tx int) {
@@ -166,6 +171,9 @@ func (st *dbState) release(tx int) {
 // settle lets the graveyard collector finish a pass it may have been triggered for, so that the
 // run is deterministic. Only possible while the driver holds no table lock.
 func (st *dbState) settle() {
+	if st.concurrent {
+		return
+	}
 	if len(st.open) == 0 {
 		synctest.Wait()
 	}
@@ -343,7 +351,7 @@ func (st *dbState) exec(op dbOp) Ev {
 	case "wtxn":
 		metas := []statedb.TableMeta{}
 		for _, t := range op.Tables {
-			if _, busy := st.held[t]; busy || st.tables[t] == nil {
+			if _, busy := st.held[t]; (busy && !st.concurrent) || st.tables[t] == nil {
 				return nop // would block forever on this goroutine (invalid script)
 			}
 			metas = append(metas, st.tables[t].tbl)
@@ -559,7 +567,7 @@ func (st *dbState) exec(op dbOp) Ev {
 		if !ok {
 			return nop
 		}
-		if _, busy := st.held[di.t]; busy {
+		if _, busy := st.held[di.t]; busy && !st.concurrent {
 			return nop // Close() needs the table lock
 		}
 		di.it.Close()
@@ -596,6 +604,10 @@ func (st *dbState) exec(op dbOp) Ev {
 		return Ev{"op": "init", "src": srcMap(op.Src), "t": op.T, "w": op.W, "wc": wc,
 			"initialized": initialized, "pending": pending}
 	case "sleep":
+		if st.concurrent {
+			time.Sleep(time.Duration(op.Ms) * time.Millisecond)
+			return Ev{"op": "sleep", "ms": op.Ms}
+		}
 		if len(st.open) > 0 {
 			return nop // the collector could block on a table lock held by the driver
 		}
